@@ -326,6 +326,55 @@ func pricingHarness(kind string, third string, bound int) harness {
 	}}
 }
 
+// tightHarness (H3t): as H3, with GasProvided strictly between what the execution costs under the
+// cheap and under the expensive schedule. Charged wholly by one schedule it either succeeds exactly
+// as it does alone under the cheap one, or is refused exactly as it is alone under the expensive
+// one; an execution admitted under one schedule and charged under the other is neither.
+func tightHarness(kind string, up bool, bound int) harness {
+	name := "H3t:" + kind
+	from, to := uint64(1000), uint64(5000)
+	if !up {
+		name += ":down"
+		from, to = to, from
+	}
+	return harness{name: name, bound: bound, build: func() ([]func(), func(*vsched.Result) (string, *violation)) {
+		lo, hi := refCharge(kind, 1000), refCharge(kind, 5000)
+		gas := lo + (hi-lo)/2
+		refLo, refHi := refOutcome(kind, 1000, gas), refOutcome(kind, 5000, gas)
+		l := bodies.NewLiteWith(from)
+		var res bodies.ExecResult
+		bs := []func(){
+			func() { res = bodies.ExecGas(l, kind, "S", gas) },
+			func() { l.Factory.GasScheduleChange(bodies.Schedule(to)) },
+		}
+		return bs, func(r *vsched.Result) (string, *violation) {
+			if !refLo.OK || refHi.OK {
+				return "violation", &violation{"harness", "tight-reference:" + kind, fmt.Sprintf("reference outcomes with %d gas: under the cheap schedule ok=%v (%s), under the expensive one ok=%v", gas, refLo.OK, refLo.Err, refHi.OK)}
+			}
+			switch {
+			case res.Same(refLo):
+				return "tight:charged-by-cheap", nil
+			case res.Same(refHi):
+				return "tight:refused-by-expensive", nil
+			}
+			return "violation", &violation{"mixed-charge", "tight:" + kind, fmt.Sprintf("%s with %d gas (between its charge %d under the cheap and %d under the expensive schedule) overlapping the schedule change ended ok=%v err=%q gasRemaining=%d forwarded=%d: alone it ends ok gasRemaining=%d forwarded=%d under the cheap schedule and is refused with %q under the expensive one",
+				kind, gas, lo, hi, res.OK, res.Err, res.Remaining, res.Forwarded, refLo.Remaining, refLo.Forwarded, refHi.Err)}
+		}
+	}}
+}
+
+var refOutCache = map[string]bodies.ExecResult{}
+
+func refOutcome(kind string, base, gas uint64) bodies.ExecResult {
+	k := fmt.Sprintf("%s/%d/%d", kind, base, gas)
+	if v, ok := refOutCache[k]; ok {
+		return v
+	}
+	v := bodies.RefOutcome(kind, base, gas)
+	refOutCache[k] = v
+	return v
+}
+
 var refCache = map[string]uint64{}
 
 // refCharge measures (once) what kind consumes when run alone under Schedule(base); for the kinds
@@ -490,11 +539,23 @@ func allHarnesses(tier checks.Tier) []harness {
 	if thorough {
 		hs = append(hs, pricingHarness("ESDTNFTCreate", "exec", 2), pricingHarness("SaveKeyValue", "epoch", 2))
 	}
-	// H5
-	hs = append(hs, isolationHarness("ESDTNFTCreate", "ESDTNFTCreate", false, 2), isolationHarness("ESDTNFTAddURI", "ESDTNFTCreate", false, 2),
-		isolationHarness("ESDTNFTTransfer", "ESDTNFTTransfer", false, 2), isolationHarness("MultiESDTNFTTransfer", "ESDTNFTAddURI", false, 2),
-		isolationHarness("ESDTTransfer", "ESDTTransfer", false, 2), isolationHarness("ESDTLocalMint", "ESDTLocalMint", false, 2),
-		isolationHarness("ESDTLocalMint", "ESDTTransfer", false, 2), isolationHarness("ESDTNFTTransfer/same-shard", "MultiESDTNFTTransfer/same-shard", false, 2))
+	// H3t: the same with tight gas
+	for _, k := range bodies.ExecKinds {
+		hs = append(hs, tightHarness(k, true, bound))
+		if thorough {
+			hs = append(hs, tightHarness(k, false, bound))
+		}
+	}
+	// H5: every kind against itself on another token (the same function object), and mixed pairs
+	for _, k := range bodies.ExecKinds {
+		if k == "SaveKeyValue" {
+			continue // names no token
+		}
+		hs = append(hs, isolationHarness(k, k, false, 2))
+	}
+	hs = append(hs, isolationHarness("ESDTNFTAddURI", "ESDTNFTCreate", false, 2), isolationHarness("MultiESDTNFTTransfer", "ESDTNFTAddURI", false, 2),
+		isolationHarness("ESDTLocalMint", "ESDTTransfer", false, 2), isolationHarness("ESDTNFTTransfer/same-shard", "MultiESDTNFTTransfer/same-shard", false, 2),
+		isolationHarness("ESDTNFTTransfer", "ESDTNFTTransfer/same-shard-contract-with-call", false, 2), isolationHarness("MultiESDTNFTTransfer/same-shard", "MultiESDTNFTTransfer", false, 2))
 	if thorough {
 		hs = append(hs, isolationHarness("ESDTNFTCreate", "ESDTNFTAddURI", true, 2), isolationHarness("ESDTNFTTransfer", "MultiESDTNFTTransfer", false, 3))
 	}
@@ -509,10 +570,22 @@ func main() {
 	if len(os.Args) > 1 {
 		tier = checks.Tier(os.Args[1])
 	}
+	// second stage of C13: the isolation harnesses only (executions on the same function objects
+	// overlapping in time must observe what they observe alone), reported under C13
+	stage13 := len(os.Args) > 2 && os.Args[2] == "stage13"
 	start := time.Now()
 	bodies.Hook = func(kind string) { vsched.Point(vsched.Op{Kind: "env." + kind}) }
 	bodies.Tick = vsched.Tick
 	hs := allHarnesses(tier)
+	if stage13 {
+		var only []harness
+		for _, h := range hs {
+			if harnessFamily(h.name) == "H5" {
+				only = append(only, h)
+			}
+		}
+		hs = only
+	}
 	fam := map[string]*stats{}
 	deadline := 150 * time.Second
 	if tier.Thorough() {
@@ -548,7 +621,9 @@ func main() {
 	}
 	// the separate free-running race pass (not model checking; reported separately)
 	var race map[string]interface{}
-	if b, err := os.ReadFile(checks.Root + "/.work/race.json"); err == nil {
+	if stage13 {
+		race = map[string]interface{}{"note": "the race pass belongs to C19"}
+	} else if b, err := os.ReadFile(checks.Root + "/.work/race.json"); err == nil {
 		_ = json.Unmarshal(b, &race)
 		if n, _ := race["reports"].(float64); n > 0 {
 			viols = append(viols, checks.Viol{Property: P, Clause: "data-race", Sig: fmt.Sprint(race["first_site"]), Detail: fmt.Sprintf("the free-running race-detector pass reported %v data race(s); first: %v", n, race["first_report"]), Kind: "race", Replay: race})
@@ -596,6 +671,14 @@ func main() {
 		"samples":                       samples,
 		"race_pass":                     race,
 		"explanation":                   "stateless DFS over schedules with iterative preemption bounding on the real code: 'states' counts the scheduling decisions visited (no state hashing is used), 'traces_validated_against_impl' the complete executions, each of which is an execution of the implementation checked against a sequential specification (porcupine, cross-checked by brute force) or the closed-form charge",
+	}
+	if stage13 {
+		o.Property = "C13"
+		o.MergeSection = "concurrent_isolation"
+		for i := range o.Violations {
+			o.Violations[i].Property = "C13"
+		}
+		o.Assumptions = []string{"concurrent stage: two executions on the same function objects (different tokens of equal length) under every schedule with at most 2 preemptions; scheduling points at every lock, atomic and environment call"}
 	}
 	os.Exit(checks.Finish(o))
 }
